@@ -1241,11 +1241,14 @@ impl<'r> BinDecodable<'r> for Name {
     }
 }
 
-fn read_inner(decoder: &mut BinDecoder<'_>, name: &mut Name) -> Result<(), DecodeError> {
+fn read_inner(outer: &mut BinDecoder<'_>, name: &mut Name) -> Result<(), DecodeError> {
     let mut state: LabelParseState = LabelParseState::LabelLengthOrPointer;
     let mut ptr_max_idx = None;
     let mut decoder_tmp;
-    let mut decoder = &mut *decoder;
+    // pointer hops are charged to the decoder the name is read from, see `BinDecoder`
+    let pointer_budget = outer.pointer_budget();
+    let mut pointer_hops = 0usize;
+    let mut decoder = &mut *outer;
     let mut name_start = decoder.index();
 
     // assume all chars are utf-8. We're doing byte-by-byte operations, no endianness issues...
@@ -1347,6 +1350,14 @@ fn read_inner(decoder: &mut BinDecoder<'_>, name: &mut Name) -> Result<(), Decod
                         ptr: e,
                     })?;
 
+                pointer_hops += 1;
+                if pointer_hops > pointer_budget {
+                    return Err(DecodeError::PointerNotPriorToLabel {
+                        idx: pointer_location,
+                        ptr: location,
+                    });
+                }
+
                 // chase the pointer
                 ptr_max_idx = Some(name_start);
                 decoder_tmp = decoder.clone(location);
@@ -1361,6 +1372,8 @@ fn read_inner(decoder: &mut BinDecoder<'_>, name: &mut Name) -> Result<(), Decod
             }
         }
     }
+
+    outer.charge_pointer_hops(pointer_hops);
 
     // TODO: should we consider checking this while the name is parsed?
     let len = name.len();
